@@ -283,8 +283,8 @@ def run_case(ctx, case, d):
     rkey = "regions-multi" if multi else "conservation"
     if rc != 0:
         msg = (se.strip().splitlines() or ["?"])[-1][:300]
-        if o.get("skip_missing_contigs") is None and "does not exist in the VCF" in msg:
-            ctx.observe("contig of the BAM missing from the VCF header: haplotag refuses (by design)")
+        if not o.get("skip_missing_contigs") and "does not exist in the VCF" in msg:
+            ctx.observe("reads on a contig missing from the VCF header: haplotag refuses without --skip-missing-contigs (by design)")
             return
         ctx.fail(f"haplotag exits with {rc} and writes no complete output: {msg}", slim, key=rkey if multi else "cli-error")
         return
@@ -297,7 +297,11 @@ def run_case(ctx, case, d):
     assert len(srt) == len(inrecs) and all(a["name"] == b["name"] for a, b in zip(srt, inrecs)), "harness: input order"
 
     regions = norm_regions(case)
-    if regions is None:
+    if regions is None and o.get("skip_missing_contigs"):
+        expected = [r for r in inrecs if r["chrom"] is None or r["chrom"] in case["vcf_contigs"]]
+        ctx.observe(f"--skip-missing-contigs drops the alignments of contigs missing from the VCF (by design; outside the quantifier)")
+        chrom_of = [c for c in case["contigs"]]
+    elif regions is None:
         expected = inrecs
         chrom_of = [c for c in case["contigs"]]
     else:
